@@ -4007,6 +4007,8 @@ impl<'a> Parser<'a> {
     }
 
     fn parse_intersection_type(&mut self) -> Result<TypeAnnotation, JsError> {
+        // A leading `&` is allowed, like the leading `|` of a union
+        self.match_token(&TokenKind::Amp);
         let first = self.parse_primary_type()?;
 
         if !self.check(&TokenKind::Amp) {
